@@ -385,6 +385,42 @@ SdesItemsWalk(b, q, end, acc) ==
              ELSE IF t = 8 /\ b[q + 3] + 1 > l THEN [st |-> "reject", items |-> acc, q |-> q]  \* prefix overruns item
              ELSE SdesItemsWalk(b, q + 2 + l, end, Append(acc, ItemTok(b, q)))
 
+\* Very long item lists: the recursive walk (Append per item) is super-quadratic in TLC.  A claimed token list
+\* for the items starting at q (a hint, e.g. what an implementation reported) can be CHECKED in one pass - every
+\* token is what the RFC reading gives at its offset, each item is complete and well-formed, consecutive items
+\* are contiguous - and if it holds the walk resumes behind it.  A hint that does not check is ignored.
+ItemStartOf(it) == IF it.type = 8 THEN it.po - 3 ELSE it.vo - 2
+ItemsWitnessOk(b, q, end, its) ==
+    /\ its # <<>>
+    /\ ItemStartOf(its[1]) = q
+    /\ \A i \in 1..Len(its) :
+          LET st == ItemStartOf(its[i])
+          IN  /\ st >= q /\ st + 2 <= end
+              /\ b[st + 1] # 0
+              /\ st + 2 + b[st + 2] <= end
+              /\ ~(b[st + 1] = 8 /\ b[st + 2] = 0)
+              /\ ~(b[st + 1] = 8 /\ b[st + 2] > 0 /\ b[st + 3] + 1 > b[st + 2])
+              /\ its[i] = ItemTok(b, st)
+              /\ i < Len(its) => ItemStartOf(its[i + 1]) = st + 2 + b[st + 2]
+SdesItemsWalkH(b, q, end, its) ==
+    IF its # <<>> /\ ItemsWitnessOk(b, q, end, its)
+    THEN LET lst == its[Len(its)] IN SdesItemsWalk(b, ItemStartOf(lst) + 2 + lst.length, end, its)
+    ELSE SdesItemsWalk(b, q, end, <<>>)
+
+RECURSIVE SdesChunksWalkH(_, _, _, _, _)
+SdesChunksWalkH(b, p, end, acc, hints) ==
+    IF p >= end THEN [v |-> "done", chunks |-> acc]
+    ELSE IF p + 4 > end THEN [v |-> "either", chunks |-> acc]
+    ELSE LET r == SdesItemsWalkH(b, p + 4, end, IF Len(acc) + 1 <= Len(hints) THEN hints[Len(acc) + 1] ELSE <<>>)
+         IN  CASE r.st = "reject" -> [v |-> "reject", chunks |-> acc]
+               [] r.st \in {"either", "noterm"} -> [v |-> "either", chunks |-> acc]
+               [] r.st = "term" ->
+                    LET nxt == Pad4(r.q + 1)
+                    IN  IF nxt > end THEN [v |-> "either", chunks |-> acc]
+                        ELSE IF ~AllZero(b, r.q + 2, nxt) THEN [v |-> "reject", chunks |-> acc]
+                        ELSE SdesChunksWalkH(b, nxt, end,
+                                 Append(acc, [ssrc |-> U32At(b, p + 1), length |-> nxt - p, items |-> r.items]), hints)
+
 RECURSIVE SdesChunksWalk(_, _, _, _)
 SdesChunksWalk(b, p, end, acc) ==
     IF p >= end THEN [v |-> "done", chunks |-> acc]
@@ -398,6 +434,16 @@ SdesChunksWalk(b, p, end, acc) ==
                         ELSE IF ~AllZero(b, r.q + 2, nxt) THEN [v |-> "reject", chunks |-> acc]  \* non-zero fill
                         ELSE SdesChunksWalk(b, nxt, end,
                                  Append(acc, [ssrc |-> U32At(b, p + 1), length |-> nxt - p, items |-> r.items]))
+
+\* the same verdict, computed with per-chunk item hints (validated, see above); hints = <<>> is SdesVerdict
+SdesVerdictH(b, hints) ==
+    IF ~RegularPad(b, 4) THEN [v |-> "either", chunks |-> <<>>, irregular |-> TRUE]
+    ELSE LET w == SdesChunksWalkH(b, 4, Len(b) - PadCount(b), <<>>, hints)
+         IN  IF w.v = "done"
+             THEN IF Len(w.chunks) = Count(b)
+                  THEN [v |-> "must", chunks |-> w.chunks, irregular |-> FALSE]
+                  ELSE [v |-> "either", chunks |-> w.chunks, irregular |-> FALSE]
+             ELSE [v |-> w.v, chunks |-> w.chunks, irregular |-> FALSE]
 
 \* verdict for a string b already Framed as SDES
 SdesVerdict(b) ==
